@@ -8,10 +8,58 @@ import (
 	"setecvet/eng"
 )
 
-const (
+// The two locks the properties speak about, named from the types (so that
+// renaming a field changes no verdict): keyDB is the mutex field of db.DB,
+// keyStore the mutex inside the Store's guarded group (the struct holding the
+// map to *cachedSecret).  The defaults are the names on the pinned tree.
+var (
 	keyDB    eng.LockKey = "db.DB.mu"
 	keyStore eng.LockKey = "setec.Store.active.Mutex"
 )
+
+func isMutexType(t types.Type) bool {
+	return eng.IsNamed(t, "sync", "Mutex") || eng.IsNamed(t, "sync", "RWMutex")
+}
+
+func initLockKeys(p *eng.Prog) {
+	if n := p.Named("db", "DB"); n != nil {
+		if st, ok := n.Underlying().(*types.Struct); ok {
+			var names []string
+			for i := 0; i < st.NumFields(); i++ {
+				if isMutexType(st.Field(i).Type()) {
+					names = append(names, st.Field(i).Name())
+				}
+			}
+			if len(names) == 1 {
+				keyDB = eng.LockKey("db.DB." + names[0])
+			}
+		}
+	}
+	if n := p.Named(setecPkg, "Store"); n != nil {
+		if st, ok := n.Underlying().(*types.Struct); ok {
+			for i := 0; i < st.NumFields(); i++ {
+				g, isSt := st.Field(i).Type().Underlying().(*types.Struct)
+				if !isSt {
+					continue
+				}
+				hasMap, mu := false, ""
+				for j := 0; j < g.NumFields(); j++ {
+					if mt, isMap := g.Field(j).Type().Underlying().(*types.Map); isMap {
+						if pt, isP := mt.Elem().(*types.Pointer); isP && eng.IsNamed(pt.Elem(), setecPkg, "cachedSecret") {
+							hasMap = true
+						}
+					}
+					if isMutexType(g.Field(j).Type()) {
+						mu = g.Field(j).Name()
+					}
+				}
+				if hasMap && mu != "" {
+					keyStore = eng.LockKey("setec.Store." + st.Field(i).Name() + "." + mu)
+				}
+			}
+		}
+	}
+}
 
 var locksCache = map[*eng.Prog]*eng.Locks{}
 
@@ -36,12 +84,7 @@ func moduleLocks(c *eng.Ctx) *eng.Locks {
 		}
 	}
 	add("db", "Open", keyDB)
-	add("db", "openOrCreateKV", keyDB)
-	add("db", "newKV", keyDB)
 	add("client/setec", "NewStore", keyStore)
-	add("client/setec", "(*Store).initializeActive", keyStore)
-	add("client/setec", "(*Store).isActiveSetValid", keyStore)
-	add("client/setec", "(*Store).loadCache", keyStore)
 	storeT := p.Named("client/setec", "Store")
 	prepubFns := pre
 	cfg := eng.LockCfg{
